@@ -28,6 +28,7 @@ import (
 )
 
 type spliceFn struct {
+	bind  map[*ssa.Parameter]ssa.Value // function-valued parameters of a shared helper -> what the handler passes
 	fn    *ssa.Function
 	pops  []*ssa.Call // in execution order
 	kinds []string    // bytes | int | peek
@@ -399,13 +400,38 @@ func ruleTSplice(c *Ctx) {
 			c.Undecided("T-splice", name, token.NoPos, "handler not found")
 			return nil, nil, nil
 		}
+		// a handler that only hands on to a helper a later change shared between siblings
+		// (return bitwiseBinaryOp(t, func(x, y byte) byte { return x & y })): the helper is read, with its
+		// function-valued parameters bound to what the handler passes
+		bind := map[*ssa.Parameter]ssa.Value{}
+		for i := 0; i < 3; i++ {
+			h, args := soleDelegate(fn)
+			if h == nil {
+				break
+			}
+			nb := map[*ssa.Parameter]ssa.Value{}
+			for k, p := range h.Params {
+				if k < len(args) {
+					a := args[k]
+					if pp, isP := a.(*ssa.Parameter); isP {
+						if prev, ok := bind[pp]; ok {
+							a = prev
+						}
+					}
+					nb[p] = a
+				}
+			}
+			fn, bind = h, nb
+		}
 		paths, err := feasiblePaths(fn, 20000)
 		if err != nil {
 			c.Undecided("T-splice", name, fn.Pos(), "cannot enumerate paths: "+err.Error())
 			return nil, nil, nil
 		}
 		n++
-		return fn, newSpliceFn(fn), paths
+		s := newSpliceFn(fn)
+		s.bind = bind
+		return fn, s, paths
 	}
 	eTooBig := pkgConst(c, "bscript/interpreter/errs", "ErrElementTooBig")
 	eNumBig := pkgConst(c, "bscript/interpreter/errs", "ErrNumberTooBig")
@@ -671,7 +697,41 @@ func (s *spliceFn) elementwise(push *ssa.Call, op token.Token, binary bool) stri
 		}
 		return s.operand(ia.X)
 	}
-	switch val := st.Val.(type) {
+	stVal := st.Val
+	if call, isCall := stVal.(*ssa.Call); isCall && len(call.Call.Args) >= 1 {
+		// f(a[i], b[i]) with f the function the handler passed: its one-expression body
+		var callee *ssa.Function
+		switch f := call.Call.Value.(type) {
+		case *ssa.Parameter:
+			switch b := s.bind[f].(type) {
+			case *ssa.Function:
+				callee = b
+			case *ssa.MakeClosure:
+				callee, _ = b.Fn.(*ssa.Function)
+			}
+		case *ssa.Function:
+			callee = f
+		}
+		if callee != nil && len(callee.Blocks) == 1 && len(callee.FreeVars) == 0 {
+			if r, isR := callee.Blocks[0].Instrs[len(callee.Blocks[0].Instrs)-1].(*ssa.Return); isR && len(r.Results) == 1 {
+				argOf := func(v ssa.Value) ssa.Value {
+					for k, p := range callee.Params {
+						if v == ssa.Value(p) && k < len(call.Call.Args) {
+							return call.Call.Args[k]
+						}
+					}
+					return v
+				}
+				switch e := r.Results[0].(type) {
+				case *ssa.BinOp:
+					stVal = &ssa.BinOp{Op: e.Op, X: argOf(e.X), Y: argOf(e.Y)}
+				case *ssa.UnOp:
+					stVal = &ssa.UnOp{Op: e.Op, X: argOf(e.X)}
+				}
+			}
+		}
+	}
+	switch val := stVal.(type) {
 	case *ssa.BinOp:
 		if val.Op != op {
 			return "the bytes are combined with " + val.Op.String() + ", the definition is " + op.String()
@@ -758,3 +818,35 @@ func countsFromZero(idx ssa.Value, h *ssa.BasicBlock) bool {
 }
 
 var _ = big.NewInt
+
+// soleDelegate: fn does nothing but return the result of one call of a module helper outside the baseline list.
+func soleDelegate(fn *ssa.Function) (*ssa.Function, []ssa.Value) {
+	if len(fn.Blocks) != 1 || inlineHelper == nil {
+		return nil, nil
+	}
+	var call *ssa.Call
+	for _, ins := range fn.Blocks[0].Instrs {
+		switch x := ins.(type) {
+		case *ssa.Call:
+			if call != nil {
+				return nil, nil
+			}
+			call = x
+		case *ssa.Return:
+			if call == nil || len(x.Results) != 1 || x.Results[0] != ssa.Value(call) {
+				return nil, nil
+			}
+		case *ssa.MakeClosure, *ssa.DebugRef:
+		default:
+			return nil, nil
+		}
+	}
+	if call == nil {
+		return nil, nil
+	}
+	sc := call.Call.StaticCallee()
+	if sc == nil || !inlineHelper(sc) || len(sc.Blocks) == 0 {
+		return nil, nil
+	}
+	return sc, call.Call.Args
+}
